@@ -457,9 +457,9 @@ func TestVF_C16(t *testing.T) {
 		"then a sequential probe: LabelValues answer consumed after an idle unload. oracle: each answer equals the always-loaded BinaryReader's answer for the same operation, or the error is errUnloadedWhileLoading " +
 		"(or the same error the always-loaded reader gives); no panic/fault; race detector on. signature = order of window entries (u,d), effective unloads (U+ = a call spanned it entirely, U0) and clean errors (X), runs collapsed; " +
 		"distinct/non-trivial = signature of a case with >=1 unload spanned by an in-flight call")
-	n := r.N(60, 3000)
+	n := r.N(60, 2000)
 	nOps := 200
-	minSig := r.N(20, 1000)
+	minSig := r.N(20, 700)
 	r.Require(int64(n*2*nOps), minSig)
 	r.Assume("a 'clean error' is errUnloadedWhileLoading (the only error LazyBinaryReader defines for a concurrent unload); errors that the always-loaded reader returns for the same operation are accepted as equal answers")
 	r.Assume("an answer is compared by reading all of it after the call returned, as any caller does; a reader is used again after Close (LazyBinaryReader documents automatic reload)")
